@@ -79,6 +79,26 @@ func parseSx(s string) (*sx, error) {
 // sorted by field id (the order of the model's VT field list).
 func fieldOrder(t reflect.Type) []string { return verifFields[t.Name()] }
 
+// spare gives b eight bytes of spare capacity holding a guard pattern, so that a
+// write past len(b) into the caller's array is visible afterwards.
+func spare(b []byte) []byte {
+	r := make([]byte, len(b), len(b)+8)
+	copy(r, b)
+	t := r[len(b):cap(r)]
+	for i := range t {
+		t[i] = guardByte
+	}
+	return r
+}
+
+// spareTail is what is currently stored in the spare capacity of b.
+func spareTail(b []byte) string {
+	if cap(b) == len(b) {
+		return ""
+	}
+	return hex.EncodeToString(b[len(b):cap(b)])
+}
+
 func setHolder(v reflect.Value, b []byte) {
 	fv := v.FieldByName("_unknownFields")
 	if !fv.IsValid() || !fv.CanAddr() {
@@ -141,6 +161,9 @@ func build(v reflect.Value, x *sx) error {
 		case reflect.String:
 			v.SetString(string(bs))
 		case reflect.Slice:
+			if bs != nil {
+				bs = spare(bs)
+			}
 			v.SetBytes(bs)
 		default:
 			return fmt.Errorf("bytes for %s", t)
@@ -192,7 +215,7 @@ func build(v reflect.Value, x *sx) error {
 			if err != nil {
 				return err
 			}
-			setHolder(v, bs)
+			setHolder(v, spare(bs))
 		}
 		for i, n := range names {
 			if err := build(v.FieldByName(n), args[i+1]); err != nil {
@@ -317,6 +340,59 @@ func dump(sb *strings.Builder, v reflect.Value) {
 	}
 }
 
+// snapshot is the dump of a value plus the content of the spare capacity of every byte slice in it
+func snapshot(v reflect.Value) string {
+	var sb strings.Builder
+	dump(&sb, v)
+	tails(&sb, v)
+	return sb.String()
+}
+
+func tails(sb *strings.Builder, v reflect.Value) {
+	t := v.Type()
+	switch t.Kind() {
+	case reflect.Slice:
+		if v.IsNil() {
+			return
+		}
+		if t.Elem().Kind() == reflect.Uint8 {
+			sb.WriteString("|" + spareTail(v.Bytes()))
+			return
+		}
+		for i := 0; i < v.Len(); i++ {
+			tails(sb, v.Index(i))
+		}
+	case reflect.Map:
+		if v.IsNil() {
+			return
+		}
+		var parts []string
+		it := v.MapRange()
+		for it.Next() {
+			var b strings.Builder
+			e := reflect.New(t.Elem()).Elem()
+			e.Set(it.Value())
+			tails(&b, e)
+			parts = append(parts, b.String())
+		}
+		sort.Strings(parts)
+		sb.WriteString(strings.Join(parts, ""))
+	case reflect.Ptr:
+		if !v.IsNil() {
+			tails(sb, v.Elem())
+		}
+	case reflect.Struct:
+		for _, n := range fieldOrder(t) {
+			tails(sb, v.FieldByName(n))
+		}
+		if v.CanAddr() {
+			if h := getHolder(v); h != nil {
+				sb.WriteString("|h" + spareTail(h))
+			}
+		}
+	}
+}
+
 func dumpStr(v reflect.Value) string {
 	var sb strings.Builder
 	dump(&sb, v)
@@ -436,10 +512,10 @@ func opEnc(a []*sx) string {
 		return "(harness-error " + hexs(err.Error()) + ")"
 	}
 	mode := a[1].atom
-	before := dumpStr(p.Elem())
+	before := snapshot(p.Elem())
 	v := arg(p, mode)
 	sz := safeSize(v)
-	afterSize := dumpStr(p.Elem())
+	afterSize := snapshot(p.Elem())
 	n := 0
 	if strings.HasPrefix(sz, "(size ") {
 		n, _ = strconv.Atoi(strings.TrimSuffix(strings.TrimPrefix(sz, "(size "), ")"))
@@ -457,7 +533,7 @@ func opEnc(a []*sx) string {
 	}
 	buf := arr[:n+extra]
 	wn, es := safeEnc(buf, v)
-	after := dumpStr(p.Elem())
+	after := snapshot(p.Elem())
 	var out strings.Builder
 	out.WriteString(sz)
 	if es != "" {
